@@ -784,6 +784,120 @@ def generate(repo):
            '\n'.join(f'def {nm} {sig} := {M}.{nm} left right top bottom rows cols'
                      for nm in ('cropRowLo', 'cropRowHi', 'cropColLo', 'cropColHi')))
 
+    # ---- crop: where the four margins come from (which axis `any` reduces, forward / reversed argmax, which validity test)
+    #      and the early-return test, by symbolic evaluation of the straight-line head of the method
+    def crop_margins():
+        from pyexpr2lean import Tr
+        fn = info.methods['crop']
+        env = {}
+        facts = {'finite': None}
+
+        def axis_of(call, first_positional):
+            ax = None
+            for k in call.keywords:
+                if k.arg == 'axis':
+                    ax = k.value
+            if ax is None and len(call.args) > first_positional:
+                ax = call.args[first_positional]
+            if isinstance(ax, ast.UnaryOp) and isinstance(ax.op, ast.USub) and isinstance(ax.operand, ast.Constant):
+                return {1: 1, 2: 0}.get(ax.operand.value)
+            if isinstance(ax, ast.Constant) and ax.value in (0, 1):
+                return ax.value
+            return None
+
+        def ev(e):
+            if isinstance(e, ast.Name):
+                return env.get(e.id, ('opaque',))
+            if isinstance(e, ast.Call):
+                f = ast.unparse(e.func)
+                if f in ('np.isfinite', 'np.isnan', 'np.isinf') and len(e.args) == 1 and _is_self_attr(e.args[0], ('data',)):
+                    return ('mat', f.split('.')[-1], False)
+                if f in ('np.logical_not', 'np.invert') and len(e.args) == 1:
+                    v = ev(e.args[0])
+                    if v[0] == 'mat':
+                        return ('mat', v[1], not v[2])
+                if f in ('np.any',) and e.args:
+                    v, ax = ev(e.args[0]), axis_of(e, 1)
+                    if v[0] == 'mat' and ax is not None:
+                        return ('vec', v, 'col' if ax == 0 else 'row', False)
+                if isinstance(e.func, ast.Attribute) and e.func.attr == 'any':
+                    v, ax = ev(e.func.value), axis_of(e, 0)
+                    if v[0] == 'mat' and ax is not None:
+                        return ('vec', v, 'col' if ax == 0 else 'row', False)
+                if f in ('np.flip', 'np.flipud') and len(e.args) == 1 and not e.keywords:
+                    v = ev(e.args[0])
+                    if v[0] == 'vec':
+                        return ('vec', v[1], v[2], not v[3])
+                if f in ('np.argmax',) and len(e.args) == 1 and not e.keywords:
+                    v = ev(e.args[0])
+                    if v[0] == 'vec':
+                        return ('margin', v)
+                if isinstance(e.func, ast.Attribute) and e.func.attr == 'argmax' and not e.args and not e.keywords:
+                    v = ev(e.func.value)
+                    if v[0] == 'vec':
+                        return ('margin', v)
+                if f == 'int' and len(e.args) == 1:
+                    return ev(e.args[0])
+                return ('opaque',)
+            if isinstance(e, ast.UnaryOp) and isinstance(e.op, ast.Invert):
+                v = ev(e.operand)
+                if v[0] == 'mat':
+                    return ('mat', v[1], not v[2])
+            if isinstance(e, ast.Subscript) and isinstance(e.slice, ast.Slice) and e.slice.lower is None and e.slice.upper is None \
+                    and isinstance(e.slice.step, ast.UnaryOp) and isinstance(e.slice.step.op, ast.USub) \
+                    and isinstance(e.slice.step.operand, ast.Constant) and e.slice.step.operand.value == 1:
+                v = ev(e.value)
+                if v[0] == 'vec':
+                    return ('vec', v[1], v[2], not v[3])
+            return ('opaque',)
+
+        early = None
+        for st in fn.body:
+            if isinstance(st, ast.Expr):
+                continue
+            if isinstance(st, ast.Assign) and len(st.targets) == 1:
+                t = st.targets[0]
+                if isinstance(t, ast.Name):
+                    env[t.id] = ev(st.value)
+                    continue
+                if isinstance(t, ast.Tuple) and isinstance(st.value, ast.Tuple) and len(t.elts) == len(st.value.elts) \
+                        and all(isinstance(x, ast.Name) for x in t.elts):
+                    vals = [ev(x) for x in st.value.elts]
+                    for x, v in zip(t.elts, vals):
+                        env[x.id] = v
+                    continue
+                break
+            if isinstance(st, ast.If) and early is None and len(st.body) == 1 and isinstance(st.body[0], ast.Return) and not st.orelse:
+                early = st.test
+                continue
+            break
+        if early is None:
+            raise Untranslatable('no `if <nothing to trim>: return` before the slices are built')
+        out = []
+        for py, ln in (('left', 'cropLeft'), ('right', 'cropRight'), ('top', 'cropTop'), ('bottom', 'cropBottom')):
+            v = env.get(py)
+            if not v or v[0] != 'margin':
+                raise Untranslatable(f'`{py}` is not an argmax of any(validity, axis)')
+            _, (_, mat, kind, rev) = v
+            valid_means_true = (mat[1] == 'isfinite' and not mat[2]) or (mat[1] in ('isnan',) and mat[2])
+            if not valid_means_true and not (mat[1] == 'isinf' and mat[2]):
+                raise Untranslatable('margins are measured on the INVALID samples')
+            fin = (mat[1] == 'isfinite')
+            facts['finite'] = fin if facts['finite'] is None else (facts['finite'] and fin)
+            vec = f'({"rowAny" if kind == "row" else "colAny"} v rows cols)'
+            out.append(f'def {ln} (v : Nat → Nat → Bool) (rows cols : Nat) : Nat := argmaxB {vec}{".reverse" if rev else ""}')
+        c = Tr({k: k for k in ('left', 'right', 'top', 'bottom')}).cond(early)
+        out.append(f'def cropReturnsEarly (left right top bottom : Int) : Bool := decide {c}')
+        out.append(f'def cropValidityIsFinite : Bool := {"true" if facts["finite"] else "false"}')
+        return '\n'.join(out)
+    g.item('crop.margins', 'prysm/interferogram.py:Interferogram.crop', lambda: info.methods['crop'], crop_margins,
+           'def cropLeft (v : Nat → Nat → Bool) (rows cols : Nat) : Nat := argmaxB (rowAny v rows cols)\n'
+           'def cropRight (v : Nat → Nat → Bool) (rows cols : Nat) : Nat := argmaxB (rowAny v rows cols).reverse\n'
+           'def cropTop (v : Nat → Nat → Bool) (rows cols : Nat) : Nat := argmaxB (colAny v rows cols)\n'
+           'def cropBottom (v : Nat → Nat → Bool) (rows cols : Nat) : Nat := argmaxB (colAny v rows cols).reverse\n'
+           'def cropReturnsEarly (left right top bottom : Int) : Bool := decide (left = 0 ∧ right = 0 ∧ top = 0 ∧ bottom = 0)\n'
+           'def cropValidityIsFinite : Bool := true')
+
     # ---- util.mean / pv / rms / Sa / std: the statistics as list expressions over the valid samples
     # symbolic evaluation of the (straight-line) function bodies; same-module helper functions are inlined
     state = {}
